@@ -79,7 +79,7 @@ CLAIMS = {
    tech="TLA+ relational spec (SolarTrace) + TLC trace validation of paired public calls", ref="§5 C20"),
  "C16": dict(
    text="Qibla.tla defines the bearing by the east/north components of the great circle to the Kaaba (independent of the library's atan2 formula) and QiblaMC model-checks the definition's own symmetries on a grid; every recorded Qibla::new call (grid, random, date line, Kaaba meridian/antimeridian, near the Kaaba and its antipode) is validated by TLC with a cross/dot-product test, the range (-180,180], label = sign, printed text = magnitude; symmetry pairs (elevation independence, mirror, meridian 0/180, sign = side) are compared at 1e-6 degree in integers",
-   note="WEAKER THAN STATED: the vector agreement is decided to ~0.005 degree (+3e-4 degree / sin(distance to Kaaba/antipode)) because TLC integers are 32-bit; the property asks 1e-6 degree. Quadrant, atan-vs-atan2, sign, swapped-coordinate, radian/degree slips and constant errors >= 0.01 degree are caught; a 1e-3 degree constant perturbation is not",
+   note="WEAKER THAN STATED: the vector agreement is decided to ~0.001 degree (+3e-4 degree / sin(distance to Kaaba/antipode)) because TLC integers are 32-bit; the property asks 1e-6 degree. Quadrant, atan-vs-atan2, sign, swapped-coordinate, radian/degree slips and constant errors >= 0.003 degree are caught; a 1e-3 degree constant perturbation is not",
    tech="TLA+ spec (Qibla/FixedPoint) + TLC model checking of the definition + TLC trace validation of recorded calls", ref="§5 C16"),
  "C19": dict(
    text="Cli.tla specifies the tool as a sequential process (parse -> reject | read file / build config -> write params -> compute -> output) over 6480 abstract scenarios and TLC checks: a rejected command line exits non-zero before anything is computed, written or printed; an accepted one writes exactly the files asked for; the scenarios are sampled (all accepted ones several times, rejected ones biased to a single bad field), concretised with seeded values and run against the binary built from /repo; TLC validates each run's exit status, files and terminal output against the model's ending, the decoded JSON / parsed listing against the library, and -p/-i round trips byte for byte",
